@@ -117,6 +117,112 @@ def check_scopes(idx: Index, rep: Report) -> None:
         raise AnalysisError("no function pushing an interpreter scope found")
 
 
+def _operand_flow(fn: ast.AST, want: str) -> tuple[set[int], dict[int, list[str]]]:
+    """Which operands (elements of the `args` parameter) are converted by `want(x, …)`, and where an operand is used as it
+    arrived.  Statements are followed in source order; a name holds operand i raw ("r", i), converted ("c", i) or neither."""
+    params = [a.arg for a in fn.args.args]  # type: ignore[attr-defined]
+    argsn = params[-1] if params else "args"
+    state: dict[str, tuple[str, int]] = {}
+    conv: set[int] = set()
+    raw_uses: dict[int, list[str]] = {}
+
+    def operand_of(e: ast.AST):
+        if isinstance(e, ast.Name) and e.id in state:
+            return state[e.id]
+        if isinstance(e, ast.Subscript) and isinstance(e.value, ast.Name) and e.value.id == argsn and isinstance(e.slice, ast.Constant) and isinstance(e.slice.value, int):
+            return ("r", e.slice.value)
+        return None
+
+    def scan(e: ast.AST, stmt: ast.AST) -> None:
+        """record raw uses inside expression e (a want(...) call consumes its first argument legitimately)"""
+        if isinstance(e, ast.Call) and isinstance(e.func, ast.Name) and e.func.id == want and e.args:
+            o = operand_of(e.args[0])
+            if o is not None and o[0] == "r":
+                conv.add(o[1])
+                for a in e.args[1:]:
+                    scan(a, stmt)
+                return
+        o = operand_of(e)
+        if o is not None and o[0] == "r" and isinstance(getattr(e, "ctx", None), ast.Load):
+            raw_uses.setdefault(o[1], []).append(unparse(stmt))
+            return
+        for ch in ast.iter_child_nodes(e):
+            scan(ch, stmt)
+
+    def bind(tg: ast.AST, val: ast.AST | None) -> None:
+        if isinstance(tg, (ast.Tuple, ast.List)):
+            if isinstance(val, ast.Name) and val.id == argsn:
+                for i, t_ in enumerate(tg.elts):
+                    if isinstance(t_, ast.Name):
+                        state[t_.id] = ("r", i)
+                return
+            if isinstance(val, (ast.Tuple, ast.List)) and len(val.elts) == len(tg.elts):
+                for t_, v_ in zip(tg.elts, val.elts):
+                    bind(t_, v_)
+                return
+            for t_ in tg.elts:
+                bind(t_, None)
+            return
+        if not isinstance(tg, ast.Name):
+            return
+        o = None
+        if val is not None:
+            if isinstance(val, ast.Call) and isinstance(val.func, ast.Name) and val.func.id == want and val.args:
+                oo = operand_of(val.args[0])
+                if oo is not None:
+                    o = ("c", oo[1])
+            else:
+                o = operand_of(val)
+        if o is None:
+            state.pop(tg.id, None)
+        else:
+            state[tg.id] = o
+
+    def walk(body: list[ast.stmt]) -> None:
+        for st in body:
+            if isinstance(st, ast.Assign) and len(st.targets) == 1:
+                pure_move = isinstance(st.value, (ast.Name, ast.Tuple, ast.List, ast.Subscript)) and (operand_of(st.value) is not None or isinstance(st.value, (ast.Tuple, ast.List)) or (isinstance(st.value, ast.Name) and st.value.id == argsn))
+                if not pure_move:
+                    scan(st.value, st)
+                elif isinstance(st.value, (ast.Tuple, ast.List)):
+                    for v_ in st.value.elts:
+                        if operand_of(v_) is None:
+                            scan(v_, st)
+                bind(st.targets[0], st.value)
+            elif isinstance(st, ast.AnnAssign):
+                if st.value is not None:
+                    if operand_of(st.value) is None:
+                        scan(st.value, st)
+                    bind(st.target, st.value)
+            elif isinstance(st, (ast.If, ast.While)):
+                scan(st.test, st)
+                walk(st.body)
+                walk(st.orelse)
+            elif isinstance(st, ast.For):
+                scan(st.iter, st)
+                walk(st.body)
+                walk(st.orelse)
+            elif isinstance(st, (ast.With, ast.Try)):
+                for fld in ("body", "orelse", "finalbody"):
+                    walk(getattr(st, fld, []) or [])
+                for h in getattr(st, "handlers", []):
+                    walk(h.body)
+            elif isinstance(st, ast.Match):
+                scan(st.subject, st)
+                for c_ in st.cases:
+                    walk(c_.body)
+            else:
+                for ch in ast.iter_child_nodes(st):
+                    if isinstance(ch, ast.expr):
+                        scan(ch, st)
+
+    walk(fn.body)  # type: ignore[attr-defined]
+    for nm, (k, i) in state.items():
+        if k == "c":
+            conv.add(i)
+    return conv, raw_uses
+
+
 def check(idx: Index, rep: Report, tier: str) -> str:
     arith_mod = idx.module(AR)
     table = impls(idx)
@@ -153,17 +259,17 @@ def check(idx: Index, rep: Report, tier: str) -> str:
         sens = re.search(r"(S|U)I?Op$", opname) and re.search(r"(SI|UI)Op$", opname)
         if sens:
             want = "to_signed" if opname.endswith("SIOp") else "to_unsigned"
-            t = unparse(d.node)
-            raw_use = "(lhs, rhs) = args" in t or re.search(r"args\[[01]\] (<<|>>|//|%|\*|-|\+)", t)
-            conv = len(re.findall(rf"{want}\(args\[[01]\]|{want}\((lhs|rhs),", t))
             # a shift amount is not a signed quantity (amounts >= width are poison): only the shifted value needs the conversion
-            need = 1 if opname.startswith("ShR") else 2
-            if need == 1:
-                conv = len(re.findall(rf"{want}\(args\[0\]|{want}\(lhs,", t))
-            if conv >= need:
-                r2.ok(inst, f"{d.loc} both operands through {want}")
+            need = [0] if opname.startswith("ShR") else [0, 1]
+            conv, raw_uses = _operand_flow(d.node, want)
+            bad_ops = [i for i in need if raw_uses.get(i)]
+            if bad_ops:
+                i = bad_ops[0]
+                r2.fail(inst, Finding("C15.R2", d.fq, f"operands-not-normalised:{opname}", f"{d.name} ({opname}) uses its operand {i} without {want}(…, width) in `{raw_uses[i][0][:60]}`: a non-canonical representative (e.g. 200 for the i8 value -56) gives the wrong {'signed' if want == 'to_signed' else 'unsigned'} result", d.loc))
+            elif all(i in conv for i in need):
+                r2.ok(inst, f"{d.loc} operands through {want}")
             else:
-                r2.fail(inst, Finding("C15.R2", d.fq, f"operands-not-normalised:{opname}", f"{d.name} ({opname}) uses its operands without {want}(…, width): a non-canonical representative (e.g. 200 for the i8 value -56) gives the wrong {'signed' if want == 'to_signed' else 'unsigned'} result", d.loc))
+                r2.fail(inst, Finding("C15.R2", d.fq, f"operand-flow-unrecognised:{opname}", f"{d.name} ({opname}): how the operands reach the computation was not recognised (converted: {sorted(conv)}, needed: {need})", d.loc))
         # true division
         called = [helpers[call_attr(c)] for c in calls_in(d.node) if call_attr(c) in helpers]
         divs = [x for fn in [d] + called for x in walk_local(fn.node) if isinstance(x, ast.BinOp) and isinstance(x.op, ast.Div)]
